@@ -171,3 +171,37 @@ Proof.
       destruct (N.eq_dec x y) as [|Hne]; [assumption|]. exfalso. apply Hn. split; [|assumption].
       apply Hey. apply memN_spec. assumption.
 Qed.
+
+(* ---------- DFG ---------- *)
+Lemma site_eqb_eq a b : site_eqb a b = true <-> a = b.
+Proof.
+  destruct a as [a1 a2], b as [b1 b2]. unfold site_eqb. cbn. rewrite andb_true_iff, !N.eqb_eq. split; [intros [-> ->]; reflexivity | intros [= -> ->]; auto].
+Qed.
+Lemma mem_site_spec s l : mem_site s l = true <-> In s l.
+Proof.
+  unfold mem_site. rewrite existsb_exists. split.
+  - intros (x & Hx & He). apply site_eqb_eq in He. subst. assumption.
+  - intros H. exists s. split; [assumption | apply site_eqb_eq; reflexivity].
+Qed.
+Lemma seteq_site_spec a b : seteq_site a b = true -> forall s, In s a <-> In s b.
+Proof.
+  unfold seteq_site. intros H. apply andb_true_iff in H. destruct H as [H1 H2]. rewrite forallb_forall in H1, H2.
+  intros s. split; intros Hs; apply mem_site_spec; auto.
+Qed.
+(* an accepted DFG lists, for every variable, exactly the instructions that read it, and its producer is the last
+   instruction that assigns it *)
+Theorem dfg_check_sound f vars outs ins : dfg_check f vars outs ins = true ->
+  forall x, In x vars ->
+  (forall s, In s (flat_map snd (filter (fun p => N.eqb (fst p) x) ins)) <-> In s (use_sites f x)) /\
+  (forall s, In (x, s) outs -> exists l, def_sites f x = l ++ [s]).
+Proof.
+  unfold dfg_check. cbv zeta. intros H x Hx. rewrite forallb_forall in H. specialize (H x Hx).
+  apply andb_true_iff in H. destruct H as [Ho Hu]. split; [apply seteq_site_spec; exact Hu|].
+  intros s Hs. fold (def_sites f x) in Ho.
+  assert (Hin : In (x, s) (filter (fun p => N.eqb (fst p) x) outs)) by (apply filter_In; split; [assumption | apply N.eqb_refl]).
+  destruct (filter (fun p => N.eqb (fst p) x) outs) as [|[y s'] [|q t]] eqn:Ef; try contradiction.
+  - destruct Hin as [Hin|[]]. inversion Hin; subst.
+    destruct (rev (def_sites f x)) as [|last t] eqn:Er; [discriminate|]. apply site_eqb_eq in Ho. subst last.
+    exists (rev t). rewrite <- (rev_involutive (def_sites f x)), Er. reflexivity.
+  - destruct (rev (def_sites f x)); discriminate.
+Qed.
